@@ -169,45 +169,77 @@ Fixpoint insert_key (k : key) (l : list key) : list key :=
 Definition sort_keys (l : list key) : list key := fold_right insert_key [] l.
 Definition gen_lock (ks : list key) (st : ts) : lock := mkLock (sort_keys ks) 0 st 0%N false.
 
-(* ---- the system: client threads and the scheduler goroutine ---- *)
-Inductive tpc := TNew | TAcq | TWait | TDone | TUnl | TRel.
+(* ---- the system: LatchesScheduler (scheduler.go) = client threads in Lock()/UnLock()/Close(), the run()
+   goroutine, the recycle goroutines it spawns ---- *)
+Inductive tpc := TNew | TAcq | TWait | TDone | TUnl | TRel | TDrop.
 (* TNew: not created; TAcq: inside Lock(), running acquire; TWait: acquire returned Locked, in wg.Wait();
-   TDone: Lock() returned; TUnl: UnLock() called (in the channel or being released); TRel: released *)
-Inductive spc := SIdle | SRel (i : lid) (wl : list lid) | SWake (wl : list lid) | SRun (j : lid) (wl : list lid).
+   TDone: Lock() returned; TUnl: UnLock() sent the lock (in the channel or being released); TRel: released;
+   TDrop: UnLock() after Close(): nothing is sent, the latches of this lock are never released *)
+Inductive spc := SIdle | SRel (i : lid) (wl : list lid) | SWake (wl : list lid) | SRun (j : lid) (wl : list lid) | STrig.
 (* SRel: inside latches.release(i) with the wake-up list so far; SWake: wakeup(), list still to do;
-   SRun j: wakeup() inside acquire(j) after a first successful slot *)
-Record state := mkSt { lat : latches; pc : lid -> tpc; chan : list lid; sch : spc; started : list lid }.
+   SRun j: wakeup() inside acquire(j) after a first successful slot; STrig: the recycle-trigger block of run() *)
+Record glue := mkGlue {
+  closed : bool;              (* scheduler.closed (and the channel is closed) *)
+  lastrec : ts;               (* scheduler.lastRecycleTime *)
+  counter : N;                (* run()'s local counter *)
+  rtasks : list (ts * sid);   (* running `go latches.recycle(ts)`: (ts, next slot to visit) *)
+  cur : lid                   (* the lock run() received last *)
+}.
+Record state := mkSt { lat : latches; pc : lid -> tpc; chan : list lid; sch : spc; started : list lid; gl : glue }.
 Inductive label :=
 | LStart (i : lid) (ks : list key) (st : ts)
 | LAcq (i : lid)
 | LUnlock (i : lid) (c : ts)
-| LPop | LRel | LWake
+| LPop | LRel | LWake | LTrig
+| LClose
+| LRecTask (n : nat)
 | LRecycle (s : sid) (t : ts).
 
+Definition lock_chan_size : nat := 100.
+Definition check_interval_ms : N := 60000.
+Definition check_counter : N := 50000.
+
 Definition set_pc (p : lid -> tpc) (i : lid) (v : tpc) : lid -> tpc := fun x => if Nat.eqb x i then v else p x.
-Definition next_sch (wl : list lid) : spc := match wl with [] => SIdle | _ => SWake wl end.
+Definition next_sch (wl : list lid) : spc := match wl with [] => STrig | _ => SWake wl end.
 Definition complete (l : lock) : bool := Nat.leb (length (lkeys l)) (lacq l).
 Definition empty_lock : lock := mkLock [] 0 0%N 0%N false.
 Definition init_lat : latches := mkLat (fun _ => mkSlot [] []) (fun _ => empty_lock) [].
-Definition init_state : state := mkSt init_lat (fun _ => TNew) [] SIdle [].
+Definition init_glue : glue := mkGlue false 0%N 0%N [] 0.
+Definition init_state : state := mkSt init_lat (fun _ => TNew) [] SIdle [] init_glue.
 
 Definition sched_acq (sf : key -> sid) (s : state) (j : lid) (wl : list lid) : state :=
   let '(L', r) := acquire_slot sf (lat s) j in
   match r with
   | ASuccess => if complete (locks L' j)
-                then mkSt L' (set_pc (pc s) j TDone) (chan s) (next_sch wl) (started s)
-                else mkSt L' (pc s) (chan s) (SRun j wl) (started s)
-  | ALocked => mkSt L' (pc s) (chan s) (next_sch wl) (started s)
-  | AStale => mkSt L' (set_pc (pc s) j TDone) (chan s) (next_sch wl) (started s)
+                then mkSt L' (set_pc (pc s) j TDone) (chan s) (next_sch wl) (started s) (gl s)
+                else mkSt L' (pc s) (chan s) (SRun j wl) (started s) (gl s)
+  | ALocked => mkSt L' (pc s) (chan s) (next_sch wl) (started s) (gl s)
+  | AStale => mkSt L' (set_pc (pc s) j TDone) (chan s) (next_sch wl) (started s) (gl s)
   end.
 
-Definition exec (sf : key -> sid) (s : state) (e : label) : option state :=
+(* the block of run() after release/wakeup: if commitTS > startTS and (more than a minute since the last
+   recycle or counter > 50000) spawn `go latches.recycle(commitTS)`; counter++ *)
+Definition trigger (l : lock) (g : glue) : glue :=
+  if N.ltb (lstart l) (lcommit l) then
+    if N.ltb (phys (lastrec g) + check_interval_ms) (phys (lcommit l)) || N.ltb check_counter (counter g)
+    then mkGlue (closed g) (lcommit l) 1%N (rtasks g ++ [(lcommit l, 0%N)]) (cur g)
+    else mkGlue (closed g) (lastrec g) (counter g + 1)%N (rtasks g) (cur g)
+  else mkGlue (closed g) (lastrec g) (counter g + 1)%N (rtasks g) (cur g).
+
+Fixpoint set_nth {A} (l : list A) (n : nat) (v : option A) : list A :=
+  match l, n with
+  | [], _ => []
+  | _ :: r, O => match v with Some x => x :: r | None => r end
+  | a :: r, S m => a :: set_nth r m v
+  end.
+
+Definition exec (sf : key -> sid) (ns : N) (s : state) (e : label) : option state :=
   match e with
   | LStart i ks st =>
       match pc s i with
       | TNew => let l := gen_lock ks st in
                 Some (mkSt (set_lock (lat s) i l) (set_pc (pc s) i (if complete l then TDone else TAcq))
-                           (chan s) (sch s) (i :: started s))
+                           (chan s) (sch s) (i :: started s) (gl s))
       | _ => None
       end
   | LAcq i =>
@@ -218,21 +250,28 @@ Definition exec (sf : key -> sid) (s : state) (e : label) : option state :=
                          | ALocked => TWait
                          | AStale => TDone
                          end in
-                Some (mkSt L' (set_pc (pc s) i p) (chan s) (sch s) (started s))
+                Some (mkSt L' (set_pc (pc s) i p) (chan s) (sch s) (started s) (gl s))
       | _ => None
       end
   | LUnlock i c =>
+      (* SetCommitTS by the caller, then UnLock: RLock; if !closed { unlockCh <- lock } (blocks while 100 are pending) *)
       match pc s i with
-      | TDone => Some (mkSt (set_lock (lat s) i (set_commit (locks (lat s) i) c)) (set_pc (pc s) i TUnl)
-                            (chan s ++ [i]) (sch s) (started s))
+      | TDone =>
+          let L1 := set_lock (lat s) i (set_commit (locks (lat s) i) c) in
+          if closed (gl s) then Some (mkSt L1 (set_pc (pc s) i TDrop) (chan s) (sch s) (started s) (gl s))
+          else if Nat.ltb (length (chan s)) lock_chan_size
+               then Some (mkSt L1 (set_pc (pc s) i TUnl) (chan s ++ [i]) (sch s) (started s) (gl s))
+               else None
       | _ => None
       end
   | LPop =>
+      (* `for lock := range unlockCh`: also drains what is left after Close() *)
       match sch s, chan s with
       | SIdle, i :: rest =>
+          let g := mkGlue (closed (gl s)) (lastrec (gl s)) (counter (gl s)) (rtasks (gl s)) i in
           match lacq (locks (lat s) i) with
-          | O => Some (mkSt (lat s) (set_pc (pc s) i TRel) rest SIdle (started s))
-          | _ => Some (mkSt (lat s) (pc s) rest (SRel i []) (started s))
+          | O => Some (mkSt (lat s) (set_pc (pc s) i TRel) rest STrig (started s) g)
+          | _ => Some (mkSt (lat s) (pc s) rest (SRel i []) (started s) g)
           end
       | _, _ => None
       end
@@ -244,21 +283,39 @@ Definition exec (sf : key -> sid) (s : state) (e : label) : option state :=
           | RPanic => None
           | _ => let wl' := match r with RWake w => wl ++ [w] | _ => wl end in
                  match lacq (locks L' i) with
-                 | O => Some (mkSt L' (set_pc (pc s) i TRel) (chan s) (next_sch wl') (started s))
-                 | _ => Some (mkSt L' (pc s) (chan s) (SRel i wl') (started s))
+                 | O => Some (mkSt L' (set_pc (pc s) i TRel) (chan s) (next_sch wl') (started s) (gl s))
+                 | _ => Some (mkSt L' (pc s) (chan s) (SRel i wl') (started s) (gl s))
                  end
           end
       | _ => None
       end
   | LWake =>
       match sch s with
-      | SWake [] => Some (mkSt (lat s) (pc s) (chan s) SIdle (started s))
+      | SWake [] => Some (mkSt (lat s) (pc s) (chan s) STrig (started s) (gl s))
       | SWake (j :: wl) =>
           if lstale (locks (lat s) j)
-          then Some (mkSt (lat s) (set_pc (pc s) j TDone) (chan s) (next_sch wl) (started s))
+          then Some (mkSt (lat s) (set_pc (pc s) j TDone) (chan s) (next_sch wl) (started s) (gl s))
           else Some (sched_acq sf s j wl)
       | SRun j wl => Some (sched_acq sf s j wl)
       | _ => None
       end
-  | LRecycle sl t => Some (mkSt (recycle_slot (lat s) sl t) (pc s) (chan s) (sch s) (started s))
+  | LTrig =>
+      match sch s with
+      | STrig => Some (mkSt (lat s) (pc s) (chan s) SIdle (started s) (trigger (locks (lat s) (cur (gl s))) (gl s)))
+      | _ => None
+      end
+  | LClose =>
+      if closed (gl s) then None
+      else Some (mkSt (lat s) (pc s) (chan s) (sch s) (started s)
+                      (mkGlue true (lastrec (gl s)) (counter (gl s)) (rtasks (gl s)) (cur (gl s))))
+  | LRecTask n =>
+      (* one slot of a running latches.recycle(ts) *)
+      match nth_error (rtasks (gl s)) n with
+      | Some (t, sl) =>
+          let nxt := if N.ltb (sl + 1) ns then Some (t, (sl + 1)%N) else None in
+          Some (mkSt (recycle_slot (lat s) sl t) (pc s) (chan s) (sch s) (started s)
+                     (mkGlue (closed (gl s)) (lastrec (gl s)) (counter (gl s)) (set_nth (rtasks (gl s)) n nxt) (cur (gl s))))
+      | None => None
+      end
+  | LRecycle sl t => Some (mkSt (recycle_slot (lat s) sl t) (pc s) (chan s) (sch s) (started s) (gl s))
   end.
